@@ -486,6 +486,8 @@ Catalogues ==
          {<<Obj("reg", 0, 0, IdPerm), [Obj("ec", 0, 0, IdPerm) EXCEPT !.pord = [i \in Shards |-> NS + 1 - i]], Obj("ts", 1, 0, IdPerm)>>}
     [] CatSet = "c20s" ->  \* plain object and its tombstone
          {<<Obj("reg", 0, 0, IdPerm), Obj("ts", 1, 0, IdPerm)>>}
+    [] CatSet = "c20e" ->  \* expiring object and its tombstone
+         {<<Obj("reg", 0, 1, IdPerm), Obj("ts", 1, 0, IdPerm)>>}
     [] CatSet = "c20x" ->  \* + expiring plain object
          {<<Obj("reg", 0, x, IdPerm), [Obj("ec", 0, 0, IdPerm) EXCEPT !.pord = [i \in Shards |-> NS + 1 - i]], Obj("ts", 1, 0, IdPerm)>> : x \in {0, 1}}
     [] CatSet = "c20g" ->
@@ -493,6 +495,8 @@ Catalogues ==
               x \in {0, 1}, p \in Perms(NS), q \in Perms(NS), r \in Perms(NS)}
     [] CatSet = "c19s" ->  \* plain object, its lock, its tombstone
          {<<Obj("reg", 0, 0, IdPerm), Obj("lock", 1, 0, p), Obj("ts", 1, 0, q)>> : p \in Perms(NS), q \in Perms(NS)}
+    [] CatSet = "c19t" ->  \* plain object, its lock, its tombstone; fixed orders
+         {<<Obj("reg", 0, 0, IdPerm), Obj("lock", 1, 0, IdPerm), Obj("ts", 1, 0, [i \in Shards |-> NS + 1 - i])>>}
     [] CatSet = "c19l" ->  \* plain object, its lock, an EC part: nothing is ever removed
          {<<Obj("reg", 0, 0, IdPerm), Obj("lock", 1, 0, p), [Obj("ec", 0, 0, IdPerm) EXCEPT !.pord = [i \in Shards |-> NS + 1 - i]]>> : p \in Perms(NS)}
     [] CatSet = "c19" ->   \* plain object, lock on it, EC part, tombstone of the EC part
@@ -513,6 +517,7 @@ Events ==
   \cup (IF "GC" \in Ops THEN [ev : {"GC"}, s : Shards, ord : Perms(NS)] ELSE {})
   \cup (IF "Epoch" \in Ops THEN [ev : {"Epoch"}, ep : 1..MaxEpoch] ELSE {})
   \cup (IF "SetMode" \in Ops THEN [ev : {"SetMode"}, s : Shards, m : Modes] ELSE {})
+  \cup (IF "SetMode1" \in Ops THEN [ev : {"SetMode"}, s : {1}, m : Modes] ELSE {})   \* only shard 1 changes its mode
   \cup (IF "FailPut" \in Ops THEN [ev : {"Fail"}, s : Shards, fp : BOOLEAN, fg : {FALSE}] ELSE {})
   \cup (IF "FailGet" \in Ops THEN [ev : {"Fail"}, s : Shards, fp : {FALSE}, fg : BOOLEAN] ELSE {})
   \cup (IF "Evacuate" \in Ops THEN [ev : {"Evacuate"}, srcs : SrcSeqs, ign : BOOLEAN, fh : BOOLEAN] ELSE {})
@@ -522,6 +527,8 @@ EnvOK(e) ==
   \* histories are "puts, then removals": an object is not put again after a removal of it was accepted or
   \* partially applied (the reference notion "removed" of C20 is per object, the engine's marks are per copy)
   /\ (e.ev = "Put" => e.o \notin rem \cup ptl)
+  \* Evacuate of a shard that is not read-only is refused without any effect: not explored
+  /\ (e.ev = "Evacuate" => \A i \in 1..Len(e.srcs) : mode[e.srcs[i]] # "rw")
   /\ (HealthyLock /\ e.ev = "BStart" /\ Kind(e.o) = "lock") => \A s \in Shards : mode[s] = "rw" /\ ~fput[s]
 
 Init == \E c \in Catalogues : InitWith(c)
@@ -626,6 +633,8 @@ ScenarioHit ==
              "partial-removal" \in C20Classes
         [] Scenario = "second-pass" ->       \* C20: Get succeeds only in the second (metadata-less) pass
              \E o \in Regs : EngineGet(Cur, o) = "ok" /\ EngineHead(Cur, o) # "ok" /\ Ref(o)
+        [] Scenario = "two-copies-removed" ->  \* C20: Delete has to mark both copies of an object
+             LastIs("Delete") /\ res.c = "ok" /\ \E o \in Regs : Cardinality({s \in Shards : mark[s][o] = "def" /\ o \in blob[s]}) >= 2
         [] Scenario = "ev-lock-moved" ->     \* C19: evacuation moved a lock and its target
              ev.on /\ res.cnt >= 2 /\ \E l \in Ids : Kind(l) = "lock" /\ (\E s \in ev.srcs : l \in meta[s]) /\ (\E s \in Shards \ ev.srcs : l \in meta[s])
         [] Scenario = "ev-handler" ->        \* C19: the fault handler took an object
